@@ -244,6 +244,14 @@ func c08(p *P) {
 							if s == "$0.chainSupport[$1].power" || (strings.HasPrefix(s, "$0.chainSupport[$1]") && strings.HasSuffix(s, ".power")) {
 								support = s // reading the map's zero value when the key is absent is the same 0
 							}
+							if in := strings.TrimSuffix(strings.TrimPrefix(s, "phi("), ")"); in != s {
+								for _, alt := range [][2]string{{"0|", ""}, {"", "|0"}} {
+									x := strings.TrimSuffix(strings.TrimPrefix(in, alt[0]), alt[1])
+									if x != in && strings.HasPrefix(x, "$0.chainSupport[$1]") && strings.HasSuffix(x, ".power") && !strings.Contains(x, "|") {
+										support = s
+									}
+								}
+							}
 							if s == "phi(("+T+" / 3)|0)" || s == "phi(0|("+T+" / 3))" {
 								adv = s
 							}
@@ -431,7 +439,18 @@ func c08(p *P) {
 			r.Fail("C08.R4", u.fn+": scales with scalePower", p.c.Pos(fn.Pos()), fmt.Sprintf("expected one scalePower call, found %d", len(cs)))
 			continue
 		}
-		ok := re(u.power).MatchString(cs[0].Arg(0)) && re(u.total).MatchString(cs[0].Arg(1))
+		pw := cs[0].Arg(0)
+		// "for _, e := range entries { … e.Power … }": the power of a by-value copy of the ranged element
+		if ld, isLoad := cs[0].ArgValues()[0].(*ssa.UnOp); isLoad {
+			if fa, isFA := ld.X.(*ssa.FieldAddr); isFA {
+				if al, isAl := fa.X.(*ssa.Alloc); isAl {
+					if src := copyOf(al); src != nil {
+						pw = canon(src) + "." + fieldName(fa.X.Type(), fa.Field)
+					}
+				}
+			}
+		}
+		ok := re(u.power).MatchString(pw) && re(u.total).MatchString(cs[0].Arg(1))
 		r.Check(ok, "C08.R4", u.fn+": scalePower(entry power, the table's own total)", p.c.InstrPos(cs[0].Instr), cs[0].Arg(0)+", "+cs[0].Arg(1), "scalePower called with ("+cs[0].Arg(0)+", "+cs[0].Arg(1)+")")
 	}
 	if fn := p.c.Fn("gpbft.PowerEntries.Scaled"); fn != nil {
